@@ -14,7 +14,7 @@ for src in $(ls -d $G 2>/dev/null); do
   mkdir -p seeded/$id
   cp $src/patch.diff seeded/$id/; cp $src/*_test.go seeded/$id/ 2>/dev/null
   r=$(./confirm_seed.sh $src)
-  det=$(./seedtest2.sh $src/patch.diff 2>&1 | grep -E "^  C[0-9]+\.R" | sed 's/ at .*//' | sed 's/^  //' | sort -u | tr '\n' ';')
+  det=$(./seedtest2.sh $src/patch.diff 2>&1 | grep -E "^  C[0-9]+\.[RE]" | sed 's/ at .*//' | sed 's/^  //' | sort -u | tr '\n' ';')
   python3 - "$src" "$prop" "$v" "$r" "$det" <<'PY'
 import json,sys
 src,prop,v,r,det=sys.argv[1:6]
